@@ -1,11 +1,14 @@
 #!/venv/bin/python
 """Automatically generated behaviour-preserving variants (self-test, silent direction).
 
-For every function a rule module inspects (ANCHORS below) three whole-function rewrites are produced with `ast`:
+For every function a rule module inspects (ANCHORS below) six whole-function rewrites are produced with `ast`:
 
   rename    every local variable (not parameters, not names used by nested scopes) gets an unrelated name `loc<k>q`
   reformat  the function is re-emitted by ast.unparse (layout, parentheses, quotes and comments change)
   negate    every `if c: A else: B` with both branches present becomes `if not c: B else: A`
+  earlycontinue  `for ..: if c: BODY` becomes `for ..: if not c: continue; BODY`
+  whilelen  `while xs:` becomes `while len(xs) > 0:` for worklists
+  alias     repeated reads of `self._f` (never assigned in the function) go through a local bound at the top
 
 Each variant must compile, and the property's check on it must NOT report a VIOLATION that the unchanged tree does not
 report (exit 0, or exit 2 = `cannot follow`, are both acceptable; exit 2 is listed so that it can be looked at).
@@ -119,6 +122,67 @@ class Negator(ast.NodeTransformer):
         return node
 
 
+class EarlyContinue(ast.NodeTransformer):
+    """`for ..: if c: BODY` (the if is the whole loop body, no else) becomes `for ..: if not c: continue; BODY`."""
+    def visit_For(self, node):
+        self.generic_visit(node)
+        if len(node.body) == 1 and isinstance(node.body[0], ast.If) and not node.body[0].orelse and not node.orelse:
+            inner = node.body[0]
+            guard = ast.If(test=ast.UnaryOp(op=ast.Not(), operand=inner.test), body=[ast.Continue()], orelse=[])
+            node.body = [guard] + inner.body
+        return node
+
+
+class WhileLen(ast.NodeTransformer):
+    """`while xs:` becomes `while len(xs) > 0:` when xs is used as a list / deque in the function (pop / append)."""
+    def __init__(self, listlike):
+        self.listlike = listlike
+
+    def visit_While(self, node):
+        self.generic_visit(node)
+        if isinstance(node.test, ast.Name) and node.test.id in self.listlike:
+            node.test = ast.Compare(left=ast.Call(func=ast.Name(id="len", ctx=ast.Load()), args=[node.test], keywords=[]),
+                                    ops=[ast.Gt()], comparators=[ast.Constant(value=0)])
+        return node
+
+
+class AliasFields(ast.NodeTransformer):
+    """Reads of `self._f` (never assigned in the function, read at least twice) go through a local alias bound once at
+    the top of the function."""
+    def __init__(self, fields):
+        self.fields = fields
+
+    def visit_Attribute(self, node):
+        self.generic_visit(node)
+        if isinstance(node.value, ast.Name) and node.value.id == "self" and node.attr in self.fields and \
+                isinstance(node.ctx, ast.Load):
+            return ast.copy_location(ast.Name(id=self.fields[node.attr], ctx=ast.Load()), node)
+        return node
+
+    def visit_FunctionDef(self, node):
+        return node if getattr(node, "_inner", False) else self.generic_visit(node)
+
+
+def aliasable_fields(fn):
+    if not fn.args.args or fn.args.args[0].arg != "self":
+        return {}
+    reads, stored = {}, set()
+    for sub in ast.walk(fn):
+        if isinstance(sub, ast.Attribute) and isinstance(sub.value, ast.Name) and sub.value.id == "self":
+            if isinstance(sub.ctx, ast.Load):
+                reads[sub.attr] = reads.get(sub.attr, 0) + 1
+            else:
+                stored.add(sub.attr)
+    # only data fields (leading underscore), not methods that are called
+    called = {c.func.attr for c in ast.walk(fn) if isinstance(c, ast.Call) and isinstance(c.func, ast.Attribute)
+              and isinstance(c.func.value, ast.Name) and c.func.value.id == "self"}
+    rebinding = any(isinstance(sub, (ast.Global, ast.Nonlocal)) for sub in ast.walk(fn))
+    if rebinding:
+        return {}
+    return {f: "fld%dq" % i for i, f in enumerate(sorted(reads)) if reads[f] >= 2 and f not in stored
+            and f not in called and f.startswith("_") and not f.startswith("__")}
+
+
 def find_functions(tree, name):
     out = []
     for sub in ast.walk(tree):
@@ -143,6 +207,37 @@ def make_variant(src, fname, kind, which=0):
         new_fn = Negator().visit(copy.deepcopy(fn))
         if ast.dump(new_fn) == ast.dump(fn):
             return None
+    elif kind == "earlycontinue":
+        new_fn = EarlyContinue().visit(copy.deepcopy(fn))
+        if ast.dump(new_fn) == ast.dump(fn):
+            return None
+    elif kind == "whilelen":
+        listlike = {ast.unparse(c.func.value) for c in ast.walk(fn) if isinstance(c, ast.Call)
+                    and isinstance(c.func, ast.Attribute) and c.func.attr in ("pop", "popleft")}
+        new_fn = WhileLen(listlike).visit(copy.deepcopy(fn))
+        if ast.dump(new_fn) == ast.dump(fn):
+            return None
+    elif kind == "alias":
+        fields = aliasable_fields(fn)
+        # a field that some method other than __init__ re-binds may change under a call made by the function: leave it
+        rebound = set()
+        for cls in ast.walk(tree):
+            if isinstance(cls, ast.ClassDef):
+                for m in cls.body:
+                    if isinstance(m, ast.FunctionDef) and m.name != "__init__":
+                        for sub in ast.walk(m):
+                            if isinstance(sub, ast.Attribute) and isinstance(sub.value, ast.Name) and sub.value.id == "self" \
+                                    and isinstance(sub.ctx, (ast.Store, ast.Del)):
+                                rebound.add(sub.attr)
+        fields = {k: v for k, v in fields.items() if k not in rebound}
+        if not fields:
+            return None
+        new_fn = AliasFields(fields).visit(copy.deepcopy(fn))
+        binds = [ast.Assign(targets=[ast.Name(id=v, ctx=ast.Store())],
+                            value=ast.Attribute(value=ast.Name(id="self", ctx=ast.Load()), attr=k, ctx=ast.Load()))
+                 for k, v in sorted(fields.items())]
+        at = 1 if (new_fn.body and isinstance(new_fn.body[0], ast.Expr) and isinstance(new_fn.body[0].value, ast.Constant)) else 0
+        new_fn.body[at:at] = binds
     else:
         new_fn = copy.deepcopy(fn)
     ast.fix_missing_locations(new_fn)
@@ -195,7 +290,7 @@ def main():
     ap = argparse.ArgumentParser()
     ap.add_argument("--prop")
     ap.add_argument("--jobs", type=int, default=min(16, os.cpu_count() or 4))
-    ap.add_argument("--kinds", default="rename,reformat,negate")
+    ap.add_argument("--kinds", default="rename,reformat,negate,earlycontinue,whilelen,alias")
     a = ap.parse_args()
     props = [a.prop.upper()] if a.prop else sorted(ANCHORS)
     kinds = a.kinds.split(",")
